@@ -205,6 +205,144 @@ def replace_chain(fn, var: str, sink_stmt, branch_conds):
     return out
 
 
+def _sample(vr: str, kw: str):
+    from ..qr_eval import ISValue, PNValue
+
+    if vr == "IS":
+        return ISValue("0002")  # a legal IS whose text is not the canonical form of its number
+    if vr == "PN":
+        return PNValue("Doe^John")
+    if vr == "UI":
+        return "1.2.840." + str(len(kw))
+    if vr == "DA":
+        return "20200101"
+    if vr == "TM":
+        return "101500"
+    return "Abc 1"
+
+
+def _form(v):
+    """the representation a bound SQL parameter / stored cell has: the number for int-likes, the text for str"""
+    if isinstance(v, bool) or v is None:
+        return ("other", repr(v))
+    if isinstance(v, int):
+        return ("int", int(v))
+    if isinstance(v, str):
+        return ("str", v)
+    if isinstance(v, list):
+        return ("list", tuple(_form(x) for x in v))
+    return ("other", repr(v))
+
+
+def check_search_evaluated(repo: Repo, rep: Report, tier: str) -> None:
+    from ..minipy import Unsupported
+    from ..qr_eval import MODELS, QREval
+
+    rep.rule("hierarchy", "an identifier is rejected exactly when its level hierarchy is invalid (search() evaluated for every presence pattern of the keys)")
+    rep.rule("all-keys", "search() constrains the result by every key of the identifier, each compared on its own column, in one chained query")
+    rep.rule("stored-form", "add_instance indexes a key in the representation the single-value search compares the column with")
+    fq = "apps.qrscp.db.search"
+    db = repo.mod("apps.qrscp.db")
+    try:
+        q = QREval(repo)
+        g = q.it.globals
+        tr = g["_TRANSLATION"]
+        n = n_valid = n_invalid = 0
+        bad_h = bad_k = 0
+        for m in MODELS:
+            model = g[m]
+            attr = g["_PATIENT_ROOT"].get(model) or g["_STUDY_ROOT"].get(model)
+            rep.need(isinstance(attr, dict) and attr, f"apps.qrscp.db: no level table for {m}")
+            levels = list(attr)
+            retrieve = not m.endswith("Find")
+            for qlevel in levels + ["BOGUS", None]:
+                for mask in range(1 << len(levels)):
+                    for extra in [None] + levels:
+                        if extra is not None and len(attr[extra]) < 2:
+                            continue
+                        for as_list in (False, True):
+                            vals = {}
+                            if qlevel is not None:
+                                vals["QueryRetrieveLevel"] = qlevel
+                            present = [lv for k, lv in enumerate(levels) if mask >> k & 1]
+                            for lv in present:
+                                kw = attr[lv][0]
+                                v = _sample(q.vr_of(kw), kw)
+                                if as_list and lv == qlevel and q.vr_of(kw) == "UI":
+                                    v = [v, v + ".9"]
+                                vals[kw] = v
+                            if as_list and not any(isinstance(v, list) for v in vals.values()):
+                                continue
+                            rkw = None
+                            if extra is not None:
+                                rkw = attr[extra][1]
+                                vals[rkw] = _sample(q.vr_of(rkw), rkw)
+                            # what PS3.4 C.4.1.1.3.1 / C.4.2.1.4 / C.4.3.1.3.1 say about this identifier
+                            keys = [k for k in vals if k != "QueryRetrieveLevel"]
+                            if retrieve and rkw is not None:
+                                if not present or qlevel not in levels or levels.index(extra) > levels.index(qlevel):
+                                    continue  # a retrieve identifier made of required keys only / below the level: not decided here
+                                keys.remove(rkw)  # C.2.2.1.2: required keys are not part of a retrieve
+                            valid = qlevel in levels and bool(keys)
+                            if valid:
+                                qi = levels.index(qlevel)
+                                below = [k for lv in levels[qi + 1:] for k in attr[lv] if k in keys]
+                                missing = [attr[lv][0] for lv in levels[:qi] if attr[lv][0] not in vals]
+                                valid = not below and not missing
+                            kind, out = q.search(m, vals)
+                            n += 1
+                            shown = {k: (v if isinstance(v, (str, list)) else str(getattr(v, "_minipy_str", v))) for k, v in vals.items()}
+                            if valid != (kind == "conds") or (kind == "raised" and out != "InvalidIdentifier"):
+                                bad_h += 1
+                                if bad_h <= 3:
+                                    rep.fail("hierarchy", fq, f"{m}: identifier {shown} -> {'searched' if kind == 'conds' else 'raises ' + str(out)}", f"this identifier is {'valid and must be searched' if valid else 'invalid (level missing / unknown, no keys, keys below the level or a unique key above it missing) and must be rejected with InvalidIdentifier'}", mod=db, node=db.funcs.get("_check_identifier"))
+                                continue
+                            if not valid:
+                                n_invalid += 1
+                                continue
+                            n_valid += 1
+                            want = sorted((tr[k], "in" if isinstance(vals[k], list) else "==", _form(vals[k] if not hasattr(vals[k], "_minipy_str") or isinstance(vals[k], int) else vals[k]._minipy_str)) for k in keys)
+                            got = sorted((c.col, c.op, _form(c.value)) for c in out)
+                            if got != want:
+                                bad_k += 1
+                                if bad_k <= 3:
+                                    miss = [w for w in want if w not in got]
+                                    more = [w for w in got if w not in want]
+                                    rep.fail("all-keys", fq, f"{m}: identifier {shown} -> conditions {out}", f"every key of the identifier must restrict the result (PS3.4 C.2.2.2: an entity matches when all keys match){'; not applied: ' + str([(c, o) for c, o, _ in miss]) if miss else ''}{'; applied but not asked for / in another form: ' + str(more) if more else ''}", mod=db, node=db.funcs.get("_search_qr"))
+        if not bad_h:
+            rep.ok("hierarchy", f"{fq} :: {n} identifiers ({n_invalid} invalid, {n_valid} valid)", "rejected exactly when the hierarchy is invalid")
+        if not bad_k:
+            rep.ok("all-keys", f"{fq} :: {n_valid} valid identifiers", "one condition per key, on the key's column")
+        rep.floor("identifiers evaluated through search()", n, 500)
+        # stored form against compared form
+        find = MODELS[0]
+        attr = g["_PATIENT_ROOT"][g[find]]
+        levels = list(attr)
+        inst = {}
+        for kw in tr:
+            inst[kw] = _sample(q.vr_of(kw), kw)
+        stored = q.stored(inst)
+        n_s = 0
+        for lv_i, lv in enumerate(levels):
+            for kw in attr[lv]:
+                if kw not in tr:
+                    continue
+                vals = {"QueryRetrieveLevel": lv}
+                for up in levels[:lv_i]:
+                    vals[attr[up][0]] = inst[attr[up][0]]
+                vals[kw] = inst[kw]
+                kind, out = q.search(find, vals)
+                rep.need(kind == "conds", f"{fq}: a valid identifier with the single key {kw} raises {out}")
+                cs = [c for c in out if c.col == tr[kw]]
+                n_s += 1
+                ok = len(cs) == 1 and cs[0].op == "==" and _form(cs[0].value) == _form(stored.get(tr[kw]))
+                shown_v = getattr(inst[kw], "_minipy_str", inst[kw])
+                rep.check(ok, "stored-form", "apps.qrscp.db.add_instance", f"{kw} = {shown_v!r}: stored as {stored.get(tr[kw])!r} ({type(stored.get(tr[kw])).__name__}), compared with {cs[0].value if cs else None!r} ({type(cs[0].value).__name__ if cs else '-'})", f"an instance carrying {kw} {shown_v!r} is indexed in one representation and single value matching compares the column with another: the key no longer selects the entity that carries that very value (PS3.4 C.2.2.2.1)", mod=db, node=db.funcs.get("add_instance"))
+        rep.floor("keys whose stored and compared forms were evaluated", n_s, 12)
+    except Unsupported as exc:
+        rep.defer(f"apps.qrscp.db: search()/add_instance could not be evaluated ({exc})")
+
+
 def run(repo: Repo, rep: Report, tier: str) -> None:
     rep.rule("dispatch", "build_query reaches the PS3.4 C.2.2.2 matching function for every (VR class, value shape)")
     rep.rule("wildcard", "only '*' and '?' act as wildcards; matching is case-sensitive except for PN")
@@ -370,27 +508,8 @@ def run(repo: Repo, rep: Report, tier: str) -> None:
     want_r = {"start and end": ["attr <= end", "attr >= start"], "start and (not end)": ["attr >= start"], "not start and end": ["attr <= end"]}
     rep.check(rets == want_r, "operators", "apps.qrscp.db._search_range", f"{rets}", "range matching is inclusive on both ends; an open end leaves that side unbounded", mod=db, node=sr)
 
-    # ---- hierarchy ----------------------------------------------------------------------------
-    ci = db.funcs.get("_check_identifier")
-    rep.need(ci is not None, "apps.qrscp.db._check_identifier vanished")
-    raises = []
-    for r in [r for r in ast.walk(ci) if isinstance(r, ast.Raise)]:
-        g = enclosing(r, (ast.If,))
-        raises.append(norm(g.test) if g is not None else "unconditional")
-    want_h = [
-        "'QueryRetrieveLevel' not in identifier",
-        "identifier.QueryRetrieveLevel not in levels",
-        "len(identifier) == 1",
-        "any((kw in identifier for kw in attr[sublevel]))",
-        "attr[level][0] not in identifier",
-    ]
-    rep.check(sorted(raises) == sorted(want_h), "hierarchy", "apps.qrscp.db._check_identifier", f"raise conditions: {raises}", "an identifier is invalid exactly when: no level, unknown level, no keys, keys below the level, a unique key of a higher level missing", mod=db, node=ci)
-    sub = [f for f in ast.walk(ci) if isinstance(f, ast.For) and norm(f.target) == "sublevel"]
-    rep.check(len(sub) == 1 and norm(sub[0].iter).replace(" ", "") == "levels[ii+1:]", "hierarchy", "apps.qrscp.db._check_identifier", sub[0] if sub else "for sublevel in levels[ii + 1:]", "'below the level' means the levels after the query level", mod=db, node=ci)
-    sq = db.funcs.get("_search_qr")
-    rep.need(sq is not None, "apps.qrscp.db._search_qr vanished")
-    first = [s for s in body_nodoc(sq) if isinstance(s, ast.Expr) and isinstance(s.value, ast.Call)]
-    rep.check(bool(first) and norm(first[0].value) == "_check_identifier(identifier, model)" and body_nodoc(sq).index(first[0]) == 0, "hierarchy", "apps.qrscp.db._search_qr", "identifier checked before any query is built", "an invalid identifier must be rejected, not searched", mod=db, node=sq)
+    # ---- hierarchy / all keys / stored form: the db functions evaluated against recording stand-ins ------------
+    check_search_evaluated(repo, rep, tier)
 
     # ---- per entity --------------------------------------------------------------------------------
     hm = repo.mod("apps.qrscp.handlers")
